@@ -129,6 +129,40 @@ func c16Facts() {
 	if ignores {
 		b = "true"
 	}
+	// the retried operations of Put: every `operation := func() error {…}` closure must call the
+	// rewind helper before it (re)opens the record (C16_put_retry_exact is about that order)
+	var rewinds []string
+	ast.Inspect(put.Body, func(n ast.Node) bool {
+		as, ok := n.(*ast.AssignStmt)
+		if !ok || len(as.Lhs) != 1 || len(as.Rhs) != 1 {
+			return true
+		}
+		id, ok := as.Lhs[0].(*ast.Ident)
+		fl, ok2 := as.Rhs[0].(*ast.FuncLit)
+		if !ok || !ok2 || id.Name != "operation" {
+			return true
+		}
+		first := ""
+		ast.Inspect(fl.Body, func(m ast.Node) bool {
+			if first != "" {
+				return false
+			}
+			if ce, ok := m.(*ast.CallExpr); ok {
+				switch f := ce.Fun.(type) {
+				case *ast.Ident:
+					first = f.Name
+				case *ast.SelectorExpr:
+					first = f.Sel.Name
+				}
+				return false
+			}
+			return true
+		})
+		rewinds = append(rewinds, first)
+		return true
+	})
+	emit("/-- first call made by each retried `operation` closure of `localfs.Put` -/")
+	emit("def localfsPutOperationFirstCalls : List String := %s", leanStrList(rewinds))
 	emit("/-- `localfs.Delete` treats a missing file as success -/")
 	emit("def localfsDeleteIgnoresNotExist : Bool := %s", b)
 
